@@ -43,6 +43,11 @@ CLAIMED["C02"] = ("§3 C02",
     "Decides the parser bailout/recursion clauses (shared with C09), that every default-panic type-switch dispatcher of the evaluator, exporter, walker, dependency analysis and subsumption covers every implementor of the switched adt interface (or excepts it with a reachability reason), that PushState/PopState, PushArc/PopArc, pushOverlay/popOverlay, markDepth/unmarkDepth and incDepth/decDepth are balanced on every non-panicking path, and that no map-iteration order, global random source, wall-clock time or pointer text reaches output in the pipeline packages. It does not decide nil dereferences, index errors, evaluator recursion depth, or time/memory bounds.",
     "value-dependent crashes are out of reach; comparator completeness of sorts is not decided")
 
+CLAIMED["C07"] = ("§3 C07",
+    "exhaustiveness of the exporter's dispatchers over adt interfaces, case-level strong field coverage of adt expression nodes, injectivity/coverage of adt.tokenMap from the composite literal, option-to-profile wiring, CFG gates for meaning-preserving guards",
+    "Decides that every exporter dispatcher covers every implementor of the adt interface it switches on, that each expression-side case uses every child and payload of its node onward, that the value exporter consults arcs/base value/arc types/closedness/conjuncts, that adt.tokenMap is injective and covers every operator, that every Profile field set by cue.Value.Syntax is consulted, that a bound is dropped for `uint` only when it is `>=0`, and that mergeValues' struct-less shortcuts are taken only without `...`. It does not decide that the produced expression means the same.",
+    "parenthesisation, let hoisting, reference relinking and label quoting are value-level")
+
 # properties not claimed (yet) -> reason
 NOT_APPLICABLE = {
     "C03": "value-level: the content is the cell values of the bound-simplification decision table over numbers; no shape rule separates a correct table from an off-by-one (DESIGN.md §4)",
